@@ -76,9 +76,27 @@ def chk_finite(inp):
                    int((~numpy.isfinite(m)).sum()), 0)
 
 
+def chk_units(inp):
+    """the matrix scales with the product of the two wavelengths, whatever unit they are given in (metres, microns): symmetric, positive semi-definite
+    to single precision and equal to the rescaled metre-unit matrix"""
+    m = aotools.circle(5, 10)
+    mats = []
+    for lam in (5.5e-7, 0.55, 550.):
+        cm = aotools.CovarianceMatrix(3, [m] * 3, 8., [.8] * 3, [0] * 3, [[10., 0], [-7, 12.], [10., 0]], [lam] * 3, 2, [0., 9000.], [0.05, 0.1], [25., 25.])
+        C = cm.make_covariance_matrix().astype(float)
+        mats.append(C / lam ** 2)
+        w = numpy.linalg.eigvalsh((C + C.T) / 2)
+        if abs(C - C.T).max() > 1e-6 * abs(C).max() or w.min() < -1e-5 * abs(C).max():
+            return bad("wavelengths given as %g: the covariance matrix is not symmetric positive semi-definite to single precision" % lam, [float(abs(C - C.T).max() / abs(C).max()), float(w.min() / abs(C).max())], "symmetric, >= -1e-5")
+    for k, lam in ((1, 0.55), (2, 550.)):
+        e = abs(mats[k] - mats[0]).max() / abs(mats[0]).max()
+        if e > 1e-5:
+            return bad("the matrix for wavelengths %g is not the matrix for 5.5e-7 scaled by the product of the wavelengths" % lam, float(e), "< 1e-5")
+
+
 def chk_entries(inp):
     if not (inp and "case" in inp) or inp.get("case") == next(iter(CASES)):
-        r = chk_finite(inp)
+        r = chk_finite(inp) or chk_units(inp)
         if r:
             return r
     names = [inp["case"]] if inp and "case" in inp else list(CASES)
